@@ -730,7 +730,32 @@ func genCase(t *rapid.T) Case {
 		setChain(b.names, b.parms)
 		body = b.body
 		c.Direct = rapid.IntRange(-1, 0).Draw(t, "direct")
-		if rapid.IntRange(0, 3).Draw(t, "mutbomb") == 0 {
+		if over := rapid.IntRange(0, 9).Draw(t, "imageover"); over >= 5 {
+			// an image filter as the LAST element over 1-2 layers which expand
+			// a tiny body to 16-48 MiB, far beyond the budget of the stream
+			k := rapid.IntRange(0, 4).Draw(t, "underkind")
+			b = getBomb(k, []int{24, 48, 16, 24, 16}[k])
+			top := "JBIG2Decode"
+			var tp gen.O = oNull()
+			if over == 5 && rapid.IntRange(0, 2).Draw(t, "dctinstead") != 0 {
+				over = 6 // CCITTFax over megabytes of zeros costs a second per case
+			}
+			switch over {
+			case 6:
+				top = "DCTDecode"
+			case 5:
+				top, tp = "CCITTFaxDecode", oDict(map[string]gen.O{"K": oInt(rapid.SampledFrom([]int64{-1, 0, 1}).Draw(t, "K"))})
+			}
+			c.Origin = strings.ToLower(strings.TrimSuffix(top, "Decode")) + "-over-bomb"
+			ps := append([]gen.O{}, b.parms...)
+			for len(ps) < len(b.names) {
+				ps = append(ps, oNull())
+			}
+			setChain(append(append([]string{}, b.names...), top), append(ps, tp))
+			body = b.body
+			c.Direct = -1
+		}
+		if rapid.IntRange(0, 3).Draw(t, "mutbomb") == 0 && c.Origin == "bomb" {
 			c.Origin = "bomb-mutated"
 			body = mutateBody(body, rapid.Uint64().Draw(t, "mseed"), 1, nil)
 		}
@@ -815,7 +840,25 @@ func genCase(t *rapid.T) Case {
 		body = seed
 		dims := []int{0, 1, 8, 16, 255, 256, 4096, 8192, 11585, 16384, 32768, 65535}
 		hdr := rapid.IntRange(0, 9).Draw(t, "hdr")
-		if hdr >= 4 { // frame and scan header fields rewritten, entropy-coded data kept
+		if rapid.IntRange(0, 4).Draw(t, "manyscans") == 0 {
+			// progressive, one component, many scans which each skip every
+			// block with EOB-run tokens: almost no input per pass
+			c.Origin = "jpeg-prog-scans"
+			hdr = -1
+			w := rapid.SampledFrom([]int{64, 256, 256, 1024, 1024, 2048}).Draw(t, "w")
+			h := rapid.SampledFrom([]int{64, 256, 1024, 2048}).Draw(t, "h")
+			n := rapid.SampledFrom([]int{10, 50, 64, 70, 100, 300, 300, 1000, 4000}).Draw(t, "nscans")
+			kind := rapid.IntRange(0, 2).Draw(t, "scankind") // 0: first passes, 1: refinement passes, 2: one first pass, then refinements
+			body = progScansJPEG(w, h, n, kind, rapid.Bool().Draw(t, "dcscan"))
+			for len(body) > maxBody && n > 10 {
+				n /= 2
+				body = progScansJPEG(w, h, n, kind, false)
+			}
+			c.ProgScans = n
+		}
+		if hdr < 0 {
+			// built above
+		} else if hdr >= 4 { // frame and scan header fields rewritten, entropy-coded data kept
 			c.Origin = "jpeg-header"
 			var edits []jpegEdit
 			if hdr >= 7 {
@@ -857,7 +900,7 @@ func genCase(t *rapid.T) Case {
 			}
 			body, _ = patchJPEGDims(body, h, w)
 		}
-		if nm := rapid.SampledFrom([]int{0, 0, 1, 2, 4}).Draw(t, "nmut"); nm > 0 {
+		if nm := rapid.SampledFrom([]int{0, 0, 1, 2, 4}).Draw(t, "nmut"); nm > 0 && c.ProgScans == 0 {
 			body = mutateBody(body, rapid.Uint64().Draw(t, "mseed"), nm, jpegSeeds[len(jpegSeeds)-1])
 		}
 		p := oNull()
@@ -867,6 +910,9 @@ func genCase(t *rapid.T) Case {
 		wrap := rapid.IntRange(0, 5).Draw(t, "wrap")
 		if c.Origin == "jpeg-header" && wrap < 4 && rapid.Bool().Draw(t, "plain") {
 			wrap = 5
+		}
+		if c.ProgScans > 0 {
+			wrap, p = 5, oNull()
 		}
 		switch wrap {
 		case 0:
@@ -1076,11 +1122,14 @@ func genCase(t *rapid.T) Case {
 	if strings.HasPrefix(c.Origin, "ccitt-bomb") && c.Mode != 0 && rapid.IntRange(0, 3).Draw(t, "drainbomb") != 0 {
 		c.Mode = 0
 	}
+	if c.ProgScans > 0 || strings.HasSuffix(c.Origin, "-over-bomb") {
+		c.Mode = 0
+	}
 	if c.Mode == 1 {
 		c.Partial = rapid.SampledFrom([]int{1, 2, 100, 4096, 70000, 1 << 20}).Draw(t, "partial")
 	}
 	c.Buf = rapid.SampledFrom([]int{1 << 16, 1 << 16, 1 << 16, 4096, 512, 7}).Draw(t, "buf")
-	if c.Buf < 4096 && (strings.HasPrefix(c.Origin, "bomb") || strings.HasPrefix(c.Origin, "ccitt")) {
+	if c.Buf < 4096 && (strings.HasPrefix(c.Origin, "bomb") || strings.HasPrefix(c.Origin, "ccitt") || strings.HasSuffix(c.Origin, "-over-bomb")) {
 		c.Buf = 1 << 16 // tiny buffers on megabytes of output only cost time
 	}
 	return c
@@ -1441,4 +1490,43 @@ func tinyFrame(t *rapid.T) []byte {
 	sof := byte(rapid.SampledFrom([]int{0xc0, 0xc0, 0xc0, 0xc1, 0xc2}).Draw(t, "sof"))
 	nz := rapid.SampledFrom([]int{8, 64, 64, 600, 4000}).Draw(t, "nz")
 	return tinyJPEG(sof, 8, dim[0], dim[1], comps, scan, nz)
+}
+
+// progScansJPEG builds a progressive (SOF2) JPEG with one component and n AC
+// scans (Ss=1, Se=63) which each visit every block.  The AC Huffman table has
+// the two 2-bit codes "00" -> EOBn(14) and "01" -> EOB, so zero bytes of
+// entropy-coded data are EOB-run tokens of 16384 blocks each: a scan costs
+// about 14 bytes of input whatever the image size.  kind 0: every scan is a
+// first pass (Ah=0); 1: every scan is a refinement pass (Ah=1, Al=0), whose
+// EOB runs are handled by a different code path; 2: one first pass, then
+// refinements.  dc adds the DC scan a well-formed file starts with.
+func progScansJPEG(width, height, n, kind int, dc bool) []byte {
+	var b bytes.Buffer
+	w := func(p ...byte) { b.Write(p) }
+	w(0xff, 0xd8)
+	w(0xff, 0xdb, 0x00, 0x43, 0x00)
+	w(bytes.Repeat([]byte{1}, 64)...)
+	w(0xff, 0xc2, 0x00, 0x0b, 0x08, byte(height>>8), byte(height), byte(width>>8), byte(width), 0x01, 0x01, 0x11, 0x00)
+	w(0xff, 0xc4, 0x00, 0x14, 0x00, 1) // DC table 0: the one-bit code "0" -> category 0
+	w(make([]byte, 15)...)
+	w(0x00)
+	w(0xff, 0xc4, 0x00, 0x15, 0x10, 0, 2) // AC table 0: two codes of length 2
+	w(make([]byte, 14)...)
+	w(0xe0, 0x00)
+	blocks := ((width + 7) / 8) * ((height + 7) / 8)
+	if dc {
+		w(0xff, 0xda, 0x00, 0x08, 0x01, 0x01, 0x00, 0x00, 0x00, 0x00)
+		w(make([]byte, blocks/8+1)...)
+	}
+	nz := 2*((blocks+16383)/16384) + 2
+	for i := 0; i < n; i++ {
+		ahal := byte(0x00)
+		if kind == 1 || (kind == 2 && i > 0) {
+			ahal = 0x10
+		}
+		w(0xff, 0xda, 0x00, 0x08, 0x01, 0x01, 0x00, 0x01, 0x3f, ahal)
+		w(make([]byte, nz)...)
+	}
+	w(0xff, 0xd9)
+	return b.Bytes()
 }
